@@ -659,6 +659,73 @@ def ms10(p, res):
     return n
 
 
+# ------------------------------------------------------------------ MS-13
+def ms13(p, res):
+    """typed views of byte buffers: `slice::from_raw_parts[_mut]` needs an aligned pointer even for an empty slice, and an empty object (rank-0 secret, zero columns) holds the
+    dangling pointer of an empty `Vec<u8>` (alignment 1).  Every reinterpreting site of poulpy-hal is therefore (a) dominated by a comparison of the length with zero (returning an
+    empty slice on the other arm), or (b) dominated by an alignment assertion on the pointer (`align_offset(..) == 0`), or (c) takes its pointer from an accessor that asserts an
+    index below a dimension (a non-empty object was allocated aligned: MS-1)."""
+    n = 0
+    for f in sorted(p.lib_fns(), key=lambda x: x.uid):
+        if f.is_test() or not f.uid.startswith("poulpy_hal::") or not f.blocks:
+            continue
+        sites = [(bi, t) for bi, t in f.calls() if (f.callee_def(t) or {}).get("n") in ("from_raw_parts", "from_raw_parts_mut") and "slice" in (f.callee_def(t) or {}).get("p", "") and len(t["a"]) == 2]
+        if not sites:
+            continue
+        g = CFG(f)
+        flow = Flow(f)
+        sym = Sym(f, flow)
+        cr = g.can_return()
+        for bi, t in sites:
+            n += 1
+            lk = sym.operand(t["a"][1]).key()
+            how = None
+            for b in sorted(g.reach):
+                tt = f.blocks[b]["t"]
+                if not tt or tt["k"] != "Switch" or not g.dominates(b, bi) or b == bi:
+                    continue
+                for r in flow.op_roots(tt["o"]):
+                    if r[0] == "bin":
+                        st = f.blocks[r[1]]["s"][r[2]][2]
+                        if st.get("op") in ("Eq", "Ne", "Gt", "Lt", "Ge", "Le"):
+                            a, c = sym.operand(st["o"][0]), sym.operand(st["o"][1])
+                            if (a.key() == lk and c.const_value() in (0, 1)) or (c.key() == lk and a.const_value() in (0, 1)):
+                                how = "length compared with zero"
+                            # alignment assertion: align_offset(ptr, ..) == 0
+                            for side, other in ((st["o"][0], c), (st["o"][1], a)):
+                                for q in flow.op_roots(side):
+                                    if q[0] == "call" and (f.callee_def(f.blocks[q[1]]["t"]) or {}).get("n") in ("align_offset", "is_aligned", "is_aligned_to") and other.const_value() == 0:
+                                        how = "alignment asserted"
+                    elif r[0] == "call" and (f.callee_def(f.blocks[r[1]]["t"]) or {}).get("n") in ("is_aligned", "is_aligned_to"):
+                        how = "alignment asserted"
+            if how is None:
+                for r in flow.op_roots(t["a"][0]):
+                    if r[0] != "call":
+                        continue
+                    for u in p.targets(f, f.blocks[r[1]]["t"]):
+                        h = p.fn(u)
+                        if h is None or not h.blocks:
+                            continue
+                        hg = CFG(h)
+                        hcr = hg.can_return()
+                        for b2 in hg.reach:
+                            t2 = h.blocks[b2]["t"]
+                            if t2 and t2["k"] == "Switch":
+                                arms = [x for _, x in t2["ts"]] + [t2["else"]]
+                                if any(x not in hcr for x in arms) and all(hg.dominates(b2, rb) for rb in hg.reach if h.blocks[rb]["t"] and h.blocks[rb]["t"]["k"] == "Return"):
+                                    for q in Flow(h).op_roots(t2["o"]):
+                                        if q[0] == "bin" and h.blocks[q[1]]["s"][q[2]][2].get("op") in ("Lt", "Gt"):
+                                            how = "pointer from an accessor asserting an index below a dimension"
+            if how:
+                res.ok("MS-13", {"fn": f.pretty, "site": f.where(t["l"]), "why": how})
+            else:
+                res.bad("MS-13", f.pretty, "empty-view-unaligned",
+                        "%s reinterprets the byte buffer's pointer as a typed slice without excluding the empty case and without an alignment check: an empty object "
+                        "(GLWESecret of rank 0, zero columns) holds the 1-aligned dangling pointer of an empty Vec<u8>, and from_raw_parts requires alignment even for length 0 "
+                        "(undefined behaviour; debug builds abort)" % f.pretty, site=f.where(t["l"]))
+    return n
+
+
 # ------------------------------------------------------------------ MS-12
 def ms12(p, res):
     """raw allocations: `std::alloc::alloc` is undefined for a zero-size layout; every call is dominated by a test of the requested size against zero"""
@@ -715,6 +782,7 @@ def run(res, tier):
     res.rule("MS-8", "block-extraction kernels (reim4_extract_1blk_contiguous): the row count is bounded, through min/max structure, by the limbs of the source view as created by the take (followed up the call chain) or by len(src)/n")
     res.rule("SER-1", "leaf readers: tainted arithmetic / slice bounds validated (shared with C18)")
     res.rule("SER-2", "leaf readers: dimension commits validated against the receiver's buffer (shared with C18)")
+    res.rule("MS-13", "slice::from_raw_parts on a reinterpreted byte pointer: zero length excluded, alignment asserted, or pointer from an index-asserting accessor")
     res.rule("SC-5", "only the scratch carver builds scratch views from raw bytes (shared with C12)")
     res.rule("WR-3", "no store through a pointer derived from a read-only operand (shared with C11)")
     res.rule("THR-2", "backend handle only read through Module::ptr (shared with C20)")
@@ -733,6 +801,8 @@ def run(res, tier):
         res.floor("MS-7", "accessor obligations", n7, 7)
         n12 = ms12(p, res)
         res.floor("MS-12", "raw allocation sites", n12, 1)
+        n13 = ms13(p, res)
+        res.floor("MS-13", "typed views of byte buffers", n13, 6)
         n10 = ms10(p, res)
         res.floor("MS-10", "slice-to-array pointer casts", n10, 3)
         n9 = ms9(p, res)
